@@ -148,7 +148,22 @@ def run(sid, props):
     return 0
 
 
+def runall():
+    """Re-run every kept change against the check of its own property (detects patches that no longer apply
+    after later repairs of /repo, and checks that nothing that was caught is now missed)."""
+    bad = 0
+    for sid in sorted(os.listdir(SEEDED)):
+        if not os.path.exists(os.path.join(SEEDED, sid, "meta.json")):
+            continue
+        rc = run(sid, [sid.split("-")[0]])
+        if rc != 0:
+            bad += 1
+    return 1 if bad else 0
+
+
 if __name__ == "__main__":
+    if sys.argv[1] == "runall":
+        sys.exit(runall())
     if sys.argv[1] == "vet":
         sys.exit(vet(sys.argv[2], sys.argv[3]))
     sys.exit(run(sys.argv[2], sys.argv[3:]))
